@@ -1,7 +1,987 @@
-(** C08 - proofs about the model in Dict/Syll.v *)
-From Coq Require Import List Arith Bool NArith Lia.
-From RimeV Require Import Dict.Syll.
+(** C08 - the theorems about BuildSyllableGraph (model: Dict/Syll.v), assembled
+    from the forward invariant (SyllFwdInv), the backward invariant
+    (SyllBackward), and the completion / Transpose lemmas proved here. *)
+From Coq Require Import List Arith Bool NArith Lia Sorted.
+From RimeV Require Import Base.ListX Dict.Syll Dict.SyllBase Dict.SyllSpec Dict.SyllForward
+     Dict.SyllFwdInv Dict.SyllBackward.
 Import ListNotations.
 
 Lemma build_empty_input P delims c s : build_syllable_graph P delims c s [] = Some empty_graph.
 Proof. reflexivity. Qed.
+
+(** ** Transpose *)
+Definition pick (sid : nat) (esm : nat * smap) : list props :=
+  match nm_find sid (snd esm) with Some pr => [pr] | None => [] end.
+
+Lemma index_add_fold sid (sm : smap) (idx : sindex) :
+  NoDup (map fst sm) ->
+  nm_find sid (fold_left index_add sm idx) =
+  match nm_find sid sm with
+  | Some pr => Some (match nm_find sid idx with Some l => l ++ [pr] | None => [pr] end)
+  | None => nm_find sid idx
+  end.
+Proof.
+  revert idx. induction sm as [|[k v] r IH]; intros idx ND; cbn [fold_left nm_find]; [reflexivity|].
+  inversion ND as [|? ? Hn ND']; subst. rewrite IH by assumption. unfold index_add. cbn [fst snd].
+  destruct (k =? sid) eqn:E.
+  - apply Nat.eqb_eq in E. subst k.
+    assert (Hr : nm_find sid r = None).
+    { destruct (nm_find sid r) eqn:F; [|reflexivity]. apply nm_find_keys in F. contradiction. }
+    rewrite Hr. now rewrite nm_find_set_eq.
+  - apply Nat.eqb_neq in E. rewrite !nm_find_set_neq by assumption. reflexivity.
+Qed.
+
+Lemma index_add_fold_sorted (sm : smap) (idx : sindex) :
+  nm_sorted idx -> nm_sorted (fold_left index_add sm idx).
+Proof.
+  revert idx. induction sm as [|a r IH]; intros idx S; cbn [fold_left]; [exact S|].
+  apply IH. unfold index_add. now apply nm_sorted_set.
+Qed.
+
+(** folding the ends in the given order appends, for each syllable, the
+    properties found on those ends *)
+Lemma transpose_fold sid (l : list (nat * smap)) (idx : sindex) :
+  (forall esm, In esm l -> NoDup (map fst (snd esm))) ->
+  nm_find sid (fold_left (fun idx (e : nat * smap) => fold_left index_add (snd e) idx) l idx) =
+  match flat_map (pick sid) l, nm_find sid idx with
+  | [], o => o
+  | x, Some l0 => Some (l0 ++ x)
+  | x, None => Some x
+  end.
+Proof.
+  revert idx. induction l as [|[e sm] r IH]; intros idx ND; cbn [fold_left flat_map].
+  - destruct (nm_find sid idx); reflexivity.
+  - rewrite IH by (intros; apply ND; now right).
+    rewrite index_add_fold by (apply (ND (e, sm)); now left). cbn [snd].
+    unfold pick at 2. cbn [snd].
+    destruct (nm_find sid sm) as [pr|]; cbn [app].
+    + destruct (flat_map (pick sid) r) as [|y ys]; destruct (nm_find sid idx); cbn; try reflexivity;
+        now rewrite <- app_assoc.
+    + reflexivity.
+Qed.
+
+Lemma transpose_start_sorted (ev : evmap) (idx : sindex) :
+  nm_sorted idx -> nm_sorted (transpose_start idx ev).
+Proof.
+  unfold transpose_start. generalize (rev ev). intro l. revert idx.
+  induction l as [|a r IH]; intros idx S; cbn [fold_left]; [exact S|].
+  apply IH. now apply index_add_fold_sorted.
+Qed.
+
+Lemma transpose_find (es : emap) s :
+  nm_sorted es ->
+  nm_find s (transpose es) = option_map (transpose_start []) (nm_find s es).
+Proof.
+  unfold transpose. intro S.
+  assert (G : forall (l : emap) ind0, nm_sorted l ->
+             (forall k, In k (map fst l) -> nm_find k ind0 = None) ->
+             nm_find s (fold_left (fun ind (x : nat * evmap) =>
+                          nm_set (fst x) (transpose_start (find_or_empty (fst x) ind) (snd x)) ind) l ind0) =
+             match nm_find s l with
+             | Some ev => Some (transpose_start [] ev)
+             | None => nm_find s ind0
+             end).
+  { induction l as [|[k ev] r IH]; intros ind0 Sl Hk; cbn [fold_left nm_find]; [reflexivity|].
+    pose proof (nm_sorted_tail _ _ Sl) as Sr.
+    assert (Hkr : ~ In k (map fst r)).
+    { apply sorted_keys_nodup in Sl. cbn in Sl. now inversion Sl. }
+    cbn [fst snd]. rewrite IH.
+    - destruct (k =? s) eqn:E.
+      + apply Nat.eqb_eq in E. subst k.
+        assert (Hr : nm_find s r = None).
+        { destruct (nm_find s r) eqn:F; [|reflexivity]. apply nm_find_keys in F. contradiction. }
+        rewrite Hr, nm_find_set_eq. rewrite find_or_empty_none; [reflexivity|]. apply Hk. now left.
+      + apply Nat.eqb_neq in E. rewrite nm_find_set_neq by assumption. reflexivity.
+    - exact Sr.
+    - intros k' Hk'. rewrite nm_find_set_neq; [apply Hk; now right|]. intro C. subst. contradiction. }
+  transitivity (match nm_find s es with
+                | Some ev => Some (transpose_start [] ev)
+                | None => @nm_find sindex s []
+                end).
+  - exact (G es [] S (fun _ _ => eq_refl)).
+  - destruct (nm_find s es); reflexivity.
+Qed.
+
+Lemma maps_sorted_sm (es : emap) s ev e sm :
+  maps_sorted es -> nm_find s es = Some ev -> In (e, sm) ev -> nm_sorted sm.
+Proof.
+  intros (_ & S) F Hin. destruct (S s ev F) as [Sev Ssm]. apply (Ssm e). now apply nm_sorted_In_find.
+Qed.
+
+Theorem transpose_spec (es : emap) s sid :
+  maps_sorted es -> index_at (transpose es) s sid = transposed es s sid.
+Proof.
+  intro S. unfold index_at, transposed. rewrite transpose_find by apply S.
+  destruct (nm_find s es) as [ev|] eqn:F; cbn [option_map]; [|reflexivity].
+  unfold transpose_start. rewrite transpose_fold.
+  - cbn [nm_find]. fold (pick sid). destruct (flat_map (pick sid) (rev ev)); reflexivity.
+  - intros [e sm] Hin. apply in_rev in Hin. cbn [snd]. apply sorted_keys_nodup.
+    eapply maps_sorted_sm; eauto.
+Qed.
+
+Lemma transposed_In (es : emap) s sid l pr :
+  maps_sorted es -> transposed es s sid = Some l ->
+  (In pr l <-> exists e, edge_at es s e sid pr).
+Proof.
+  intros S H. unfold transposed in H. destruct (nm_find s es) as [ev|] eqn:F; [|discriminate].
+  assert (Hl : l = flat_map (pick sid) (rev ev)).
+  { fold (pick sid) in H. destruct (flat_map (pick sid) (rev ev)); [discriminate|congruence]. }
+  subst l. destruct S as (S0 & S1). destruct (S1 s ev F) as [Sev _]. rewrite in_flat_map. split.
+  - intros ([e sm] & Hin & Hp). apply in_rev in Hin. unfold pick in Hp. cbn [snd] in Hp.
+    destruct (nm_find sid sm) as [pr'|] eqn:Fs; [|destruct Hp]. destruct Hp as [<-|[]].
+    exists e, ev, sm. repeat split; try assumption. now apply nm_sorted_In_find.
+  - intros (e & ev' & sm & F1 & F2 & F3). rewrite F in F1. inversion F1; subst ev'.
+    exists (e, sm). split; [apply in_rev; rewrite rev_involutive; now apply nm_find_In|].
+    unfold pick. cbn [snd]. rewrite F3. now left.
+Qed.
+
+(** ** completion (lines 190-231) *)
+Section Completion.
+  Variable P : prism.
+  Variable inp : str.
+  Variable far : nat.
+  Notation n := (length inp).
+
+  Definition comp_entry (sid : nat) (pr : props) : Prop :=
+    exists k ds d, In (k, ds) P /\ is_prefix (skipn far inp) k = true /\ In d ds /\ d_sid d = sid /\
+                   d_type d < kAbbreviation /\ pr = mkProps kCompletion n (mkCred (d_cred d) 1 0).
+
+  Definition comp_inv (sp0 sp : smap) : Prop :=
+    (forall sid pr, nm_find sid sp = Some pr -> nm_find sid sp0 = Some pr \/ comp_entry sid pr) /\
+    (forall sid pr, nm_find sid sp0 = Some pr -> nm_find sid sp = Some pr) /\
+    (nm_sorted sp0 -> nm_sorted sp).
+
+  Lemma add_completion_inv sp0 sp k ds d :
+    In (k, ds) P -> is_prefix (skipn far inp) k = true -> In d ds ->
+    comp_inv sp0 sp -> comp_inv sp0 (add_completion n sp d).
+  Proof.
+    intros Hk Hp Hd (I1 & I2 & I3). unfold add_completion.
+    destruct (d_type d <? kAbbreviation) eqn:T; [|now repeat split].
+    destruct (nm_find (d_sid d) sp) as [old|] eqn:F; [now repeat split|].
+    apply Nat.ltb_lt in T. refine (conj _ (conj _ _)).
+    - intros sid pr H. rewrite nm_find_set in H. destruct (d_sid d =? sid) eqn:E; [|now apply I1].
+      apply Nat.eqb_eq in E. inversion H; subst pr. right. exists k, ds, d. repeat split; assumption.
+    - intros sid pr H. rewrite nm_find_set. destruct (d_sid d =? sid) eqn:E; [|now apply I2].
+      apply Nat.eqb_eq in E. subst sid. apply I2 in H. congruence.
+    - intro S. apply nm_sorted_set. now apply I3.
+  Qed.
+
+  Lemma add_completion_has sp d :
+    d_type d < kAbbreviation -> exists pr, nm_find (d_sid d) (add_completion n sp d) = Some pr.
+  Proof.
+    intro T. unfold add_completion. apply Nat.ltb_lt in T. rewrite T.
+    destruct (nm_find (d_sid d) sp) eqn:F; [eauto|]. rewrite nm_find_set_eq. eauto.
+  Qed.
+
+  Lemma add_completion_keeps sp d sid pr :
+    nm_find sid sp = Some pr -> nm_find sid (add_completion n sp d) = Some pr.
+  Proof.
+    intro H. unfold add_completion. destruct (d_type d <? kAbbreviation); [|exact H].
+    destruct (nm_find (d_sid d) sp) eqn:F; [exact H|]. rewrite nm_find_set_neq; [exact H|]. congruence.
+  Qed.
+
+  Definition comp_fold (keys : list pmatch) (sp0 : smap) : smap :=
+    fold_left (fun sp (m : pmatch) =>
+                 if fst m <? n - far then sp else fold_left (add_completion n) (snd m) sp) keys sp0.
+
+  Lemma comp_fold_inv limit sp0 keys :
+    (forall m, In m keys -> In m (expand_search P (skipn far inp) limit)) ->
+    comp_inv sp0 (comp_fold keys sp0).
+  Proof.
+    intro Hk. unfold comp_fold.
+    apply (fold_left_inv _ (comp_inv sp0)).
+    - repeat split; tauto.
+    - intros sp m Hm I. destruct (fst m <? n - far); [exact I|].
+      destruct m as [l ds]. apply Hk in Hm. apply expand_search_In in Hm as (k & Hin & Hp & _).
+      cbn [snd]. apply (fold_left_inv _ (comp_inv sp0)); [exact I|].
+      intros sp' d Hd I'. eapply add_completion_inv; eauto.
+  Qed.
+
+  Lemma inner_has ds sp d :
+    In d ds -> d_type d < kAbbreviation -> exists pr, nm_find (d_sid d) (fold_left (add_completion n) ds sp) = Some pr.
+  Proof.
+    revert sp. induction ds as [|x r IH]; intros sp Hin T; [destruct Hin|]. cbn [fold_left].
+    destruct Hin as [->|Hin]; [|now apply IH].
+    destruct (add_completion_has sp d T) as [pr Hp]. exists pr.
+    clear IH. revert Hp. generalize (add_completion n sp d). induction r as [|y r IH]; intros sp' Hp; [exact Hp|].
+    cbn [fold_left]. apply IH. now apply add_completion_keeps.
+  Qed.
+
+  Lemma comp_fold_keeps keys sp sid pr :
+    nm_find sid sp = Some pr -> nm_find sid (comp_fold keys sp) = Some pr.
+  Proof.
+    revert sp. induction keys as [|m r IH]; intros sp H; [exact H|]. unfold comp_fold. cbn [fold_left].
+    apply IH. destruct (fst m <? n - far); [exact H|].
+    revert H. generalize sp. induction (snd m) as [|y ys IHy]; intros sp' H; [exact H|].
+    cbn [fold_left]. apply IHy. now apply add_completion_keeps.
+  Qed.
+
+  Lemma comp_fold_has keys sp l ds d :
+    In (l, ds) keys -> n - far <= l -> In d ds -> d_type d < kAbbreviation ->
+    exists pr, nm_find (d_sid d) (comp_fold keys sp) = Some pr.
+  Proof.
+    revert sp. induction keys as [|m r IH]; intros sp Hin Ll Hd T; [destruct Hin|].
+    unfold comp_fold. cbn [fold_left]. destruct Hin as [->|Hin].
+    - cbn [fst snd]. destruct (l <? n - far) eqn:E; [apply Nat.ltb_lt in E; lia|].
+      destruct (inner_has ds sp d Hd T) as [pr Hp]. exists pr. now apply comp_fold_keeps.
+    - now apply IH.
+  Qed.
+End Completion.
+
+Lemma edge_at_find2 es s e sid pr :
+  edge_at es s e sid pr <-> exists sm, find2 es s e = Some sm /\ nm_find sid sm = Some pr.
+Proof.
+  unfold edge_at, find2. split.
+  - intros (ev & sm & H1 & H2 & H3). exists sm. now rewrite H1.
+  - intros (sm & H1 & H2). destruct (nm_find s es) as [ev|] eqn:E; [|discriminate]. now exists ev, sm.
+Qed.
+
+Section CompletionSpec.
+  Variable P : prism.
+  Variable comp : bool.
+  Variable inp : str.
+  Variable es : emap.
+  Variable far : nat.
+  Notation n := (length inp).
+  Let c := completion P comp inp es far.
+
+  Lemma completion_cases :
+    (c = (es, far) /\ (comp && (far <? n) = false \/
+                        expand_search P (skipn far inp) kExpandSearchLimit = [])) \/
+    (comp = true /\ far < n /\
+     let ev := find_or_empty far es in
+     let sp := comp_fold inp far (expand_search P (skipn far inp) kExpandSearchLimit) (find_or_empty n ev) in
+     expand_search P (skipn far inp) kExpandSearchLimit <> [] /\
+     ((sp = [] /\ c = (nm_set far (nm_erase n ev) es, far)) \/
+      (sp <> [] /\ c = (nm_set far (nm_set n sp ev) es, n)))).
+  Proof.
+    unfold c, completion. destruct (comp && (far <? n)) eqn:E; [|left; split; [reflexivity|now left]].
+    apply andb_true_iff in E as [E1 E2]. apply Nat.ltb_lt in E2.
+    destruct (expand_search P (skipn far inp) kExpandSearchLimit) as [|k0 ks] eqn:Ex;
+      [left; split; [reflexivity|now right]|].
+    right. split; [exact E1|]. split; [exact E2|]. cbn zeta. split; [discriminate|].
+    fold (comp_fold inp far (k0 :: ks) (find_or_empty n (find_or_empty far es))).
+    destruct (comp_fold inp far (k0 :: ks) (find_or_empty n (find_or_empty far es))) eqn:Es.
+    - left. now split.
+    - right. split; [discriminate|reflexivity].
+  Qed.
+
+  Lemma find_or_empty_find {V} k (m : nmap (nmap V)) k2 v :
+    nm_find k2 (find_or_empty k m) = Some v <-> exists x, nm_find k m = Some x /\ nm_find k2 x = Some v.
+  Proof.
+    unfold find_or_empty. destruct (nm_find k m) as [x|].
+    - split; [eauto|]. intros (x' & E & H). now inversion E; subst.
+    - cbn. split; [discriminate|]. intros (x' & E & _). discriminate.
+  Qed.
+
+  Lemma completion_keeps s e sid pr : edge_at es s e sid pr -> edge_at (fst c) s e sid pr.
+  Proof.
+    intros (ev & sm & H1 & H2 & H3).
+    destruct completion_cases as [(-> & _)|(_ & _ & _ & [(Hsp & ->)|(Hsp & ->)])]; cbn [fst].
+    - now exists ev, sm.
+    - (* the end n of far is erased only when it carried nothing *)
+      destruct (Nat.eq_dec s far) as [->|Ns].
+      + rewrite (find_or_empty_some far es ev H1) in *.
+        exists (nm_erase n ev), sm. split; [apply nm_find_set_eq|]. split; [|exact H3].
+        rewrite nm_find_erase. destruct (n =? e) eqn:E; [|exact H2].
+        apply Nat.eqb_eq in E. subst e. exfalso.
+        rewrite (find_or_empty_some n ev sm H2) in Hsp.
+        pose proof (comp_fold_keeps inp far (expand_search P (skipn far inp) kExpandSearchLimit) sm sid pr H3) as K.
+        rewrite Hsp in K. discriminate.
+      + exists ev, sm. split; [|tauto]. now rewrite nm_find_set_neq by congruence.
+    - destruct (Nat.eq_dec s far) as [->|Ns].
+      + rewrite (find_or_empty_some far es ev H1) in *.
+        destruct (Nat.eq_dec e n) as [->|Ne].
+        * rewrite (find_or_empty_some n ev sm H2) in *.
+          eexists _, _. split; [apply nm_find_set_eq|]. split; [apply nm_find_set_eq|].
+          now apply comp_fold_keeps.
+        * eexists _, sm. split; [apply nm_find_set_eq|]. split; [|exact H3].
+          now rewrite nm_find_set_neq by congruence.
+      + exists ev, sm. split; [|tauto]. now rewrite nm_find_set_neq by congruence.
+  Qed.
+
+  Lemma completion_sound s e sid pr :
+    edge_at (fst c) s e sid pr ->
+    edge_at es s e sid pr \/
+    (comp = true /\ far < n /\ snd c = n /\ s = far /\ e = n /\ comp_entry P inp far sid pr).
+  Proof.
+    intros (ev & sm & H1 & H2 & H3).
+    destruct completion_cases as [(E & _)|(Hc & Hf & _ & [(Hsp & E)|(Hsp & E)])]; rewrite E in *; cbn [fst snd] in *.
+    - left. now exists ev, sm.
+    - left. rewrite nm_find_set in H1. destruct (far =? s) eqn:Es.
+      + apply Nat.eqb_eq in Es. subst s. inversion H1; subst ev. rewrite nm_find_erase in H2.
+        destruct (n =? e); [discriminate|].
+        apply (find_or_empty_find far es e sm) in H2 as (x & Hx & Hx2). now exists x, sm.
+      + now exists ev, sm.
+    - rewrite nm_find_set in H1. destruct (far =? s) eqn:Es.
+      + apply Nat.eqb_eq in Es. subst s. inversion H1; subst ev. rewrite nm_find_set in H2.
+        destruct (n =? e) eqn:Ee.
+        * apply Nat.eqb_eq in Ee. subst e. inversion H2; subst sm.
+          destruct (comp_fold_inv P inp far kExpandSearchLimit (find_or_empty n (find_or_empty far es))
+                      (expand_search P (skipn far inp) kExpandSearchLimit) (fun m H => H)) as (I1 & _).
+          destruct (I1 sid pr H3) as [Hold|Hnew].
+          -- left. apply find_or_empty_find in Hold as (sm0 & Hs0 & Hs1).
+             apply find_or_empty_find in Hs0 as (ev0 & He0 & He1). now exists ev0, sm0.
+          -- right. tauto.
+        * left. apply (find_or_empty_find far es e sm) in H2 as (x & Hx & Hx2). now exists x, sm.
+      + left. now exists ev, sm.
+  Qed.
+
+  Lemma completion_length :
+    snd c = far \/
+    (comp = true /\ far < n /\ snd c = n /\ has_edge (fst c) far n /\
+     exists k ds, In (k, ds) P /\ is_prefix (skipn far inp) k = true).
+  Proof.
+    destruct completion_cases as [(E & _)|(Hc & Hf & Hex & [(Hsp & E)|(Hsp & E)])]; rewrite E; cbn [fst snd];
+      [now left|now left|right].
+    split; [exact Hc|]. split; [exact Hf|]. split; [reflexivity|]. split.
+    - apply nm_nonempty_find in Hsp as (sid & pr & Hp). exists sid, pr.
+      eexists _, _. split; [apply nm_find_set_eq|]. split; [apply nm_find_set_eq|exact Hp].
+    - destruct (expand_search P (skipn far inp) kExpandSearchLimit) as [|[l ds] r] eqn:Ex; [congruence|].
+      assert (Hin : In (l, ds) (expand_search P (skipn far inp) kExpandSearchLimit)) by (rewrite Ex; now left).
+      apply expand_search_In in Hin as (k & Hk & Hp & _). now exists k, ds.
+  Qed.
+
+  Lemma completion_happens l ds d :
+    comp = true -> far < n ->
+    In (l, ds) (expand_search P (skipn far inp) kExpandSearchLimit) -> In d ds -> d_type d < kAbbreviation ->
+    snd c = n.
+  Proof.
+    intros Hc Hf Hin Hd T.
+    destruct completion_cases as [(_ & [E|E])|(_ & _ & _ & [(Hsp & E)|(Hsp & E)])].
+    - exfalso. rewrite Hc in E. apply Nat.ltb_lt in Hf. rewrite Hf in E. discriminate.
+    - exfalso. rewrite E in Hin. destruct Hin.
+    - exfalso.
+      assert (Ll : n - far <= l).
+      { apply expand_search_In in Hin as (k & _ & Hp & ->). apply is_prefix_spec in Hp as [x ->].
+        rewrite app_length, skipn_length. lia. }
+      destruct (comp_fold_has inp far _ (find_or_empty n (find_or_empty far es)) l ds d Hin Ll Hd T) as [pr Hp].
+      rewrite Hsp in Hp. discriminate.
+    - rewrite E. reflexivity.
+  Qed.
+
+  Lemma completion_sorted : maps_sorted es -> maps_sorted (fst c).
+  Proof.
+    intro S.
+    assert (Sev : nm_sorted (find_or_empty far es) /\
+                  forall e sm, nm_find e (find_or_empty far es) = Some sm -> nm_sorted sm).
+    { destruct (nm_find far es) as [ev|] eqn:F.
+      - rewrite (find_or_empty_some far es ev F). destruct S as (_ & S2). eauto.
+      - rewrite (find_or_empty_none far es F). split; [apply nm_sorted_nil|discriminate]. }
+    destruct Sev as [Sev Ssm].
+    destruct completion_cases as [(E & _)|(_ & _ & _ & [(Hsp & E)|(Hsp & E)])]; rewrite E; cbn [fst]; [exact S| |].
+    - apply maps_sorted_set1; [exact S|now apply nm_sorted_erase|].
+      intros e sm Fe. rewrite nm_find_erase in Fe. destruct (n =? e); [discriminate|eauto].
+    - apply maps_sorted_set1; [exact S|now apply nm_sorted_set|].
+      intros e sm Fe. rewrite nm_find_set in Fe. destruct (n =? e); [|eauto]. inversion Fe; subst sm.
+      destruct (comp_fold_inv P inp far kExpandSearchLimit (find_or_empty n (find_or_empty far es))
+                  (expand_search P (skipn far inp) kExpandSearchLimit) (fun m H => H)) as (_ & _ & I3).
+      apply I3. destruct (nm_find n (find_or_empty far es)) as [sm0|] eqn:F0.
+      + rewrite (find_or_empty_some n _ sm0 F0). eauto.
+      + rewrite (find_or_empty_none n _ F0). apply nm_sorted_nil.
+  Qed.
+End CompletionSpec.
+
+(** ** the whole of BuildSyllableGraph *)
+Lemma gpath_trans g a b c : gpath g a b -> gpath g b c -> gpath g a c.
+Proof. induction 1; intro H2; [exact H2|]. eapply gpath_step; eauto. Qed.
+
+Section Main.
+  Variable P : prism.
+  Variable delims : list sym.
+  Variable comp : bool.
+  Variable strict : bool.
+  Variable inp : str.
+  Hypothesis WF : prism_wf P delims.
+
+  Notation n := (length inp).
+  Notation skip := (SyllSpec.skip delims inp).
+  Notation match_at := (match_at P inp).
+  Notation adm := (adm strict inp).
+  Notation tile := (tile P delims strict inp).
+  Notation step := (step P delims strict inp).
+  Notation tilable := (tilable P delims strict inp).
+  Notation tiling := (tiling P delims strict inp).
+  Notation spell := (spell strict inp).
+  Notation FI := (FI P delims strict inp).
+
+  Definition lt_of (vs : vmap) (far : nat) : nat :=
+    Nat.max (match nm_find far vs with Some t => t | None => kNormalSpelling end) kFuzzySpelling.
+
+  Lemma backward_unfold vs es far :
+    backward vs es far =
+    fst (fold_left (prune_vertex (lt_of vs far)) (rev (seq 0 far)) ((vs, es), [far])).
+  Proof. reflexivity. Qed.
+
+  (** everything known about one run on a non-empty input *)
+  Record run (st : fstate) (vsb : vmap) (esb : emap) (good : list nat) (g : graph) : Prop := mkRun {
+    r_fi : FI st;
+    r_q : f_queue st = [];
+    r_far : forward_farthest P delims strict inp = Some (f_far st);
+    r_bi : BI (f_vertices st) (f_edges st) (f_far st) (lt_of (f_vertices st) (f_far st)) 0
+              ((vsb, esb), good);
+    r_g : g = mkGraph n (snd (completion P comp inp esb (f_far st))) vsb
+                      (fst (completion P comp inp esb (f_far st)))
+                      (transpose (fst (completion P comp inp esb (f_far st))))
+  }.
+
+  Lemma fwd_edge_facts st : FI st -> f_queue st = [] ->
+    forall s e sm, find2 (f_edges st) s e = Some sm ->
+      s < e /\ e <= f_far st /\ sm <> [] /\ visited (f_vertices st) s /\
+      exists l ds, match_at s l ds /\ e = skip (s + l) /\ sm = fst (spell s e ds).
+  Proof.
+    intros I Hq s e sm F2. unfold find2 in F2. destruct (nm_find s (f_edges st)) as [ev|] eqn:Fs; [|discriminate].
+    destruct (fi_e_sound _ _ _ _ st I s ev Fs) as [Hv R]. destruct (R e sm F2) as (l & ds & M & E & Hsm & Hne).
+    assert (Hstep : step s e). { apply step_spell. exists l, ds. subst sm. tauto. }
+    assert (Hte : tilable e). { econstructor; [|exact Hstep]. now apply (fi_v_til _ _ _ _ st I). }
+    destruct (final_far P delims strict inp st I Hq) as [_ Hmax].
+    repeat split; try assumption.
+    - destruct Hstep as (d & T). now apply (tile_bounds P delims strict inp) in T.
+    - now apply Hmax.
+    - now exists l, ds.
+  Qed.
+
+  Lemma build_run :
+    inp <> [] -> exists st vsb esb good g,
+      build_syllable_graph P delims comp strict inp = Some g /\ run st vsb esb good g.
+  Proof.
+    intro Hne. destruct (forward_terminates P delims strict inp WF) as (st & Hloop & I & Hq).
+    set (lt := lt_of (f_vertices st) (f_far st)).
+    assert (Hk : keys_sub (f_edges st) (f_vertices st)).
+    { intros s ev F. now destruct (fi_e_sound _ _ _ _ st I s ev F) as [V _]. }
+    assert (Hf : forall s e sm, find2 (f_edges st) s e = Some sm -> s < e /\ e <= f_far st /\ sm <> []).
+    { intros s e sm F2. destruct (fwd_edge_facts st I Hq s e sm F2) as (A & B & C & _). tauto. }
+    destruct (fi_maps _ _ _ _ st I) as [Sv Se].
+    pose proof (backward_BI (f_vertices st) (f_edges st) (f_far st) lt Hk Hf Se Sv) as B.
+    destruct (fold_left (prune_vertex lt) (rev (seq 0 (f_far st))) ((f_vertices st, f_edges st), [f_far st]))
+      as [[vsb esb] good] eqn:Eb.
+    exists st, vsb, esb, good. eexists. split.
+    - unfold build_syllable_graph, build_with_fuel. destruct inp as [|a r]; [congruence|].
+      rewrite Hloop. rewrite backward_unfold. fold lt. rewrite Eb. cbn [fst snd]. reflexivity.
+    - econstructor; try eassumption; try reflexivity.
+      unfold forward_farthest. now rewrite Hloop.
+  Qed.
+
+  Section WithRun.
+    Variables (st : fstate) (vsb : vmap) (esb : emap) (good : list nat) (g : graph).
+    Hypothesis R : run st vsb esb good g.
+
+    Let vs0 := f_vertices st.
+    Let es0 := f_edges st.
+    Let F := f_far st.
+    Let lt := lt_of vs0 F.
+    Let I := r_fi _ _ _ _ _ R.
+    Let Hq := r_q _ _ _ _ _ R.
+    Notation Good := (Good vs0 es0 F lt).
+
+    Lemma run_edges : g_edges g = fst (completion P comp inp esb F).
+    Proof. rewrite (r_g _ _ _ _ _ R). reflexivity. Qed.
+    Lemma run_vertices : g_vertices g = vsb.
+    Proof. rewrite (r_g _ _ _ _ _ R). reflexivity. Qed.
+    Lemma run_interp : g_interpreted_length g = snd (completion P comp inp esb F).
+    Proof. rewrite (r_g _ _ _ _ _ R). reflexivity. Qed.
+
+    Lemma bi_parts :
+      (forall v, In v good <-> Good v /\ 0 <= v) /\
+      (forall v, F <= v -> nm_find v vsb = nm_find v vs0) /\
+      (forall v t, v < F -> nm_find v vsb = Some t ->
+          Good v /\ exists t0, nm_find v vs0 = Some t0 /\ (t = t0 \/ t = kAmbiguousSpelling)) /\
+      (forall v, v < F -> Good v -> exists t, nm_find v vsb = Some t) /\
+      (forall s, F <= s -> orel ev_eqv (nm_find s es0) (nm_find s esb)) /\
+      (forall s ev, s < F -> nm_find s esb = Some ev ->
+          Good s /\ forall e sm, nm_find e ev = Some sm ->
+                      Good e /\ sm <> [] /\
+                      exists sm0, find2 es0 s e = Some sm0 /\ sm_eqv (tfilter lt sm0) sm) /\
+      (forall s e sm0, s < F -> Good s -> Good e -> find2 es0 s e = Some sm0 ->
+          tfilter lt sm0 <> [] -> exists sm, find2 esb s e = Some sm /\ sm_eqv (tfilter lt sm0) sm) /\
+      maps_sorted esb /\ nm_sorted vsb.
+    Proof.
+      destruct (r_bi _ _ _ _ _ R) as (B1 & Bv1 & Bv2 & Bv3 & Be1 & Be2 & Be3 & Bk & Bs & Bvs). cbn [fst snd] in *.
+      refine (conj B1 (conj _ (conj _ (conj _ (conj _ (conj _ (conj _ (conj Bs Bvs)))))))).
+      - intros v Hv. apply Bv1. now right.
+      - intros v t Hv. apply Bv2; [lia|exact Hv].
+      - intros v Hv. apply Bv3; [lia|exact Hv].
+      - intros s Hs. apply Be1. now right.
+      - intros s ev Hs. apply Be2; [lia|exact Hs].
+      - intros s e sm0 Hs. apply Be3; [lia|exact Hs].
+    Qed.
+
+    Lemma far_visited : exists tF, nm_find F vs0 = Some tF /\ tF <= lt.
+    Proof.
+      destruct (final_far_visited P delims strict inp st I Hq) as [tF HF]. exists tF. split; [exact HF|].
+      unfold lt, lt_of, vs0, F. rewrite HF. lia.
+    Qed.
+
+    Lemma lt_fuzzy : kFuzzySpelling <= lt.
+    Proof. unfold lt, lt_of. lia. Qed.
+
+    (** retained vertices are exactly the Good ones *)
+    Lemma retained_good v t : nm_find v vsb = Some t -> Good v.
+    Proof.
+      destruct bi_parts as (_ & Bv1 & Bv2 & _). intro H.
+      destruct (Nat.lt_ge_cases v F) as [L|L]; [now destruct (Bv2 v t L H)|].
+      rewrite Bv1 in H by assumption.
+      assert (v <= F). { apply (fi_v_til _ _ _ _ st I). now exists t. }
+      assert (v = F) by lia. subst v. constructor.
+    Qed.
+
+    Lemma good_retained v : Good v -> exists t, nm_find v vsb = Some t.
+    Proof.
+      destruct bi_parts as (_ & Bv1 & _ & Bv3 & _). intro G.
+      destruct (Nat.lt_ge_cases v F) as [L|L]; [now apply Bv3|].
+      pose proof (Good_le _ _ _ _ v G). assert (v = F) by lia. subst v.
+      rewrite Bv1 by lia. destruct far_visited as (tF & HtF & _). eauto.
+    Qed.
+
+    (** edges after the backward pass, in terms of the forward edges *)
+    Lemma esb_edge s e sid pr :
+      edge_at esb s e sid pr ->
+      s < F /\ Good s /\ Good e /\
+      exists pr0, edge_at es0 s e sid pr0 /\ shape_eq pr0 pr /\ p_type pr0 <= lt.
+    Proof.
+      destruct bi_parts as (_ & _ & _ & _ & Be1 & Be2 & _).
+      intros (ev & sm & H1 & H2 & H3).
+      destruct (Nat.lt_ge_cases s F) as [L|L].
+      - destruct (Be2 s ev L H1) as [Gs Rr]. destruct (Rr e sm H2) as (Ge & Ne & sm0 & F0 & Eq).
+        split; [exact L|]. split; [exact Gs|]. split; [exact Ge|].
+        specialize (Eq sid). rewrite H3 in Eq. apply orel_some_r in Eq as (pr0 & Hp0 & Sh).
+        destruct (fwd_edge_facts st I Hq s e sm0 F0) as (_ & _ & _ & _ & l & ds & _ & _ & Esm).
+        assert (Ssm : nm_sorted sm0).
+        { subst sm0. now destruct (spell_ok strict inp s e ds) as (_ & _ & _ & _ & S). }
+        unfold tfilter in Hp0. rewrite nm_find_filter in Hp0 by assumption.
+        destruct (nm_find sid sm0) as [x|] eqn:Fx; [|discriminate]. cbn [snd] in Hp0.
+        destruct (p_type x <=? lt) eqn:T; [|discriminate]. inversion Hp0; subst x.
+        exists pr0. split; [|split; [exact Sh|now apply Nat.leb_le]].
+        apply edge_at_find2. now exists sm0.
+      - exfalso. specialize (Be1 s L). rewrite H1 in Be1. apply orel_some_r in Be1 as (ev0 & F0 & Eq).
+        specialize (Eq e). rewrite H2 in Eq. apply orel_some_r in Eq as (sm0 & Fe0 & _).
+        assert (F2 : find2 es0 s e = Some sm0) by (unfold find2, es0 in *; now rewrite F0).
+        destruct (fwd_edge_facts st I Hq s e sm0 F2) as (A & B & _). unfold F in *. lia.
+    Qed.
+
+    Lemma esb_keeps s e sid pr0 :
+      Good s -> Good e -> edge_at es0 s e sid pr0 -> p_type pr0 <= lt ->
+      exists pr, edge_at esb s e sid pr /\ shape_eq pr0 pr.
+    Proof.
+      destruct bi_parts as (_ & _ & _ & _ & _ & _ & Be3 & _).
+      intros Gs Ge He T. apply edge_at_find2 in He as (sm0 & F0 & Hp0).
+      destruct (fwd_edge_facts st I Hq s e sm0 F0) as (A & B & _ & _ & l & ds & _ & _ & Esm).
+      assert (Ssm : nm_sorted sm0).
+      { subst sm0. now destruct (spell_ok strict inp s e ds) as (_ & _ & _ & _ & S). }
+      assert (Hf : nm_find sid (tfilter lt sm0) = Some pr0).
+      { unfold tfilter. rewrite nm_find_filter by assumption. rewrite Hp0. cbn [snd].
+        apply Nat.leb_le in T. now rewrite T. }
+      assert (Hne : tfilter lt sm0 <> []) by (eapply nm_find_nonempty; eauto).
+      assert (Ls : s < F) by (unfold F; lia).
+      destruct (Be3 s e sm0 Ls Gs Ge F0 Hne) as (sm & F2 & Eq).
+      specialize (Eq sid). rewrite Hf in Eq. apply orel_some_l in Eq as (pr & Hp & Sh).
+      exists pr. split; [|exact Sh]. apply edge_at_find2. now exists sm.
+    Qed.
+
+    (** a forward edge into a Good vertex from an admissible vertex makes the start Good *)
+    Lemma good_back s ts e sid pr0 :
+      nm_find s vs0 = Some ts -> ts <= lt -> Good e -> edge_at es0 s e sid pr0 -> p_type pr0 <= lt -> Good s.
+    Proof.
+      intros Hs Ts Ge He T. apply edge_at_find2 in He as (sm0 & F0 & Hp0).
+      destruct (fwd_edge_facts st I Hq s e sm0 F0) as (A & B & _ & _ & l & ds & _ & _ & Esm).
+      assert (Ssm : nm_sorted sm0).
+      { subst sm0. now destruct (spell_ok strict inp s e ds) as (_ & _ & _ & _ & S). }
+      apply (Good_step vs0 es0 F lt s ts e sm0); try assumption; [unfold F; lia|].
+      assert (Hf : nm_find sid (tfilter lt sm0) = Some pr0).
+      { unfold tfilter. rewrite nm_find_filter by assumption. rewrite Hp0. cbn [snd].
+        apply Nat.leb_le in T. now rewrite T. }
+      eapply nm_find_nonempty; eauto.
+    Qed.
+
+    (** *** edge soundness *)
+    Notation normal_edge := (normal_edge P delims strict inp).
+    Notation completion_edge := (completion_edge P comp inp F (g_interpreted_length g)).
+
+    Lemma fwd_edge_normal s e sid pr0 :
+      edge_at es0 s e sid pr0 -> p_end pr0 = e /\ normal_edge s e sid pr0.
+    Proof.
+      intro He. apply edge_at_find2 in He as (sm0 & F0 & Hp0).
+      destruct (fwd_edge_facts st I Hq s e sm0 F0) as (A & B & _ & _ & l & ds & M & E & Esm).
+      subst sm0. destruct (spell_ok strict inp s e ds) as (I1 & _).
+      destruct (I1 sid pr0 Hp0) as (E1 & (d & Hd) & E3 & (d' & Hd1 & Hd2 & Hd3 & Hd4)).
+      split; [exact E1|]. split; [exact A|]. split.
+      { subst e. apply skip_le. destruct M. lia. }
+      exists ds. split.
+      - subst e. rewrite strip_sub; [now destruct M as (_ & _ & L)|].
+        eapply match_no_trailing; eauto.
+      - split; [exists d; tauto|]. split; [exact E3|]. exists d'. rewrite Hd4. cbn. tauto.
+    Qed.
+
+    Theorem edge_sound s e sid pr :
+      edge_at (g_edges g) s e sid pr ->
+      p_end pr = e /\ (normal_edge s e sid pr \/ completion_edge s e sid pr).
+    Proof.
+      rewrite run_edges. intro H. apply completion_sound in H as [H|(Hc & Hf & Hn & -> & -> & Hce)].
+      - apply esb_edge in H as (_ & _ & _ & pr0 & H0 & (S1 & S2 & S3 & S4) & _).
+        destruct (fwd_edge_normal s e sid pr0 H0) as (E & A & B & ds & L & C1 & C2 & C3).
+        split; [congruence|]. left. split; [exact A|]. split; [exact B|]. exists ds. split; [exact L|].
+        rewrite <- S1, <- S3, <- S4. tauto.
+      - destruct Hce as (k & ds & d & Hin & Hp & Hd & Hs & Ht & ->). split; [reflexivity|]. right.
+        split; [exact Hc|]. split; [reflexivity|]. split; [exact Hf|]. split; [reflexivity|].
+        split; [now rewrite run_interp|].
+        exists k, ds, d. repeat split; try assumption. apply In_lookup; [now destruct WF|exact Hin].
+    Qed.
+
+    (** *** edge exactness: a retained edge carries every admissible syllable
+        of its spelling whose type is not worse than last_type *)
+    Theorem edge_exact s e :
+      s < F -> has_edge (g_edges g) s e ->
+      forall ds d, lookup (strip_delims delims (sub inp s (e - s))) P = Some ds ->
+        In d ds -> adm s e d = true -> d_type d <= lt ->
+        exists pr, edge_at (g_edges g) s e (d_sid d) pr /\ p_type pr <= d_type d.
+    Proof.
+      intros Ls (sid & pr & H) ds d L Hd A T. rewrite run_edges in *.
+      apply completion_sound in H as [H|(_ & _ & _ & -> & _)]; [|lia].
+      apply esb_edge in H as (_ & Gs & Ge & pr0 & H0 & _).
+      apply edge_at_find2 in H0 as (sm0 & F0 & Hp0).
+      destruct (fwd_edge_facts st I Hq s e sm0 F0) as (A1 & B1 & _ & _ & l & ds' & M & E & Esm).
+      assert (ds' = ds).
+      { subst e. rewrite strip_sub in L by (eapply match_no_trailing; eauto).
+        destruct M as (_ & _ & L'). congruence. }
+      subst ds' sm0. destruct (spell_ok strict inp s e ds) as (I1 & I2 & _).
+      destruct (I2 d Hd A) as [pr1 Hp1]. destruct (I1 _ _ Hp1) as (_ & _ & Lmin & _).
+      specialize (Lmin d Hd A eq_refl).
+      assert (He1 : edge_at es0 s e (d_sid d) pr1) by (apply edge_at_find2; eauto).
+      destruct (esb_keeps s e (d_sid d) pr1 Gs Ge He1 ltac:(lia)) as (pr2 & He2 & (S1 & _)).
+      exists pr2. split; [now apply completion_keeps|lia].
+    Qed.
+
+    (** *** every retained vertex lies on a path from 0 to the interpreted length *)
+    Lemma good_path_to_far v : Good v -> gpath g v F.
+    Proof.
+      induction 1 as [|i t e sm0 Li Hi Ti Ge IH F0 Hne]; [constructor|].
+      assert (Gi : Good i) by (econstructor; eauto).
+      apply nm_nonempty_find in Hne as (sid & pr0 & Hp0).
+      assert (Ssm : nm_sorted sm0).
+      { destruct (fwd_edge_facts st I Hq i e sm0 F0) as (_ & _ & _ & _ & l & ds & _ & _ & Esm).
+        subst sm0. now destruct (spell_ok strict inp i e ds) as (_ & _ & _ & _ & S). }
+      unfold tfilter in Hp0. rewrite nm_find_filter in Hp0 by assumption.
+      destruct (nm_find sid sm0) as [x|] eqn:Fx; [|discriminate]. cbn [snd] in Hp0.
+      destruct (p_type x <=? lt) eqn:T; [|discriminate]. inversion Hp0; subst x. apply Nat.leb_le in T.
+      assert (He0 : edge_at es0 i e sid pr0) by (apply edge_at_find2; eauto).
+      destruct (esb_keeps i e sid pr0 Gi Ge He0 T) as (pr & He & _).
+      eapply gpath_step; [| |exact IH].
+      - rewrite run_edges. exists sid, pr. now apply completion_keeps.
+      - left. rewrite run_vertices. now apply good_retained.
+    Qed.
+
+    Lemma far_path_to_end : gpath g F (g_interpreted_length g).
+    Proof.
+      rewrite run_interp.
+      destruct (completion_length P comp inp esb F) as [E|(_ & _ & E & He & _)]; rewrite E; [constructor|].
+      eapply gpath_step; [rewrite run_edges; exact He| |constructor].
+      right. rewrite run_interp. now rewrite E.
+    Qed.
+
+    Lemma wit_path p t : wit vs0 es0 p t -> t <= lt -> Good p -> gpath g 0 p.
+    Proof.
+      induction 1 as [t|s ts e t sid pr0 Hs Lts W IH He Lp]; intros Lt Gp; [constructor|].
+      assert (Gs : Good s) by (eapply good_back; eauto; lia).
+      eapply gpath_trans; [apply IH; [lia|exact Gs]|].
+      destruct (esb_keeps s e sid pr0 Gs Gp He ltac:(lia)) as (pr & He' & _).
+      eapply gpath_step; [| |constructor].
+      - rewrite run_edges. exists sid, pr. now apply completion_keeps.
+      - left. rewrite run_vertices. now apply good_retained.
+    Qed.
+
+    Theorem vertex_on_path v t :
+      nm_find v (g_vertices g) = Some t ->
+      gpath g 0 v /\ gpath g v (g_interpreted_length g).
+    Proof.
+      rewrite run_vertices. intro H. pose proof (retained_good v t H) as G. split.
+      - assert (exists t0, nm_find v vs0 = Some t0 /\ t0 <= lt) as (t0 & H0 & L0).
+        { inversion G as [|i t' e sm0 Li Hi Ti _ _ _]; subst; [apply far_visited|eauto]. }
+        eapply wit_path; [apply (fi_wit_v _ _ _ _ st I); exact H0|exact L0|exact G].
+      - eapply gpath_trans; [now apply good_path_to_far|apply far_path_to_end].
+    Qed.
+
+    (** *** the interpreted length is the longest tilable prefix *)
+    Theorem interpreted_longest :
+      tilable F /\ (forall p, tilable p -> p <= F) /\
+      (g_interpreted_length g = F \/
+       (comp = true /\ F < n /\ g_interpreted_length g = n /\
+        exists k ds, lookup k P = Some ds /\ is_prefix (skipn F inp) k = true)).
+    Proof.
+      destruct (final_far P delims strict inp st I Hq) as [A B]. split; [exact A|]. split; [exact B|].
+      rewrite run_interp.
+      destruct (completion_length P comp inp esb F) as [E|(Hc & Hf & E & _ & k & ds & Hin & Hp)]; [now left|].
+      right. repeat split; try assumption. exists k, ds. split; [|exact Hp].
+      apply In_lookup; [now destruct WF|exact Hin].
+    Qed.
+
+    Theorem completion_complete l ds d :
+      comp = true -> F < n ->
+      In (l, ds) (expand_search P (skipn F inp) kExpandSearchLimit) -> In d ds -> d_type d < kAbbreviation ->
+      g_interpreted_length g = n.
+    Proof. intros. rewrite run_interp. eapply completion_happens; eauto. Qed.
+
+    (** *** every tiling of the tilable prefix by normal spellings is a path of the graph *)
+    Lemma tiling_le a b l : tiling a b l -> a <= b.
+    Proof.
+      induction 1 as [|a b c d l T _ IH]; [lia|].
+      apply (tile_bounds P delims strict inp) in T. lia.
+    Qed.
+
+    Lemma normal_tiling_edges a b l :
+      tiling a b l -> nm_find a vs0 = Some 0 -> Good b -> Forall (fun x => d_type (snd x) = 0) l ->
+      Good a /\
+      Forall (fun x => exists pr, edge_at (g_edges g) (fst (fst x)) (snd (fst x)) (d_sid (snd x)) pr /\
+                                  p_type pr = 0) l.
+    Proof.
+      induction 1 as [a|a b c d l T Tl IH]; intros Ha Gc Hn; [split; [exact Gc|constructor]|].
+      inversion Hn as [|? ? Hd Hn']; subst. cbn [snd] in Hd.
+      assert (Hb : nm_find b vs0 = Some 0).
+      { destruct (fi_norm1 _ _ _ _ st I a b d Ha T Hd) as [H|[_ H]]; [exact H|]. rewrite Hq in H. destruct H. }
+      destruct (IH Hb Gc Hn') as [Gb Fl].
+      (* the edge a -> b recorded by the forward phase carries d's syllable with type 0 *)
+      destruct T as (l0 & ds & M & E & Hin & A).
+      assert (Hne : fst (spell a b ds) <> []) by (apply spell_nonempty; now exists d).
+      assert (Va : visited vs0 a) by (now exists 0).
+      subst b. destruct (fi_e_compl _ _ _ _ st I a l0 ds Va M Hne) as (ev & Fa & Fe).
+      destruct (spell_ok strict inp a (skip (a + l0)) ds) as (I1 & I2 & _).
+      destruct (I2 d Hin A) as [pr0 Hp0]. destruct (I1 _ _ Hp0) as (_ & _ & Lmin & _).
+      specialize (Lmin d Hin A eq_refl). rewrite Hd in Lmin.
+      assert (He0 : edge_at es0 a (skip (a + l0)) (d_sid d) pr0).
+      { exists ev, (fst (spell a (skip (a + l0)) ds)). tauto. }
+      assert (Ga : Good a) by (eapply (good_back a 0); eauto; lia).
+      split; [exact Ga|]. constructor; [|exact Fl]. cbn [fst snd].
+      destruct (esb_keeps a (skip (a + l0)) (d_sid d) pr0 Ga Gb He0 ltac:(lia)) as (pr & He & (S1 & _)).
+      exists pr. split; [rewrite run_edges; now apply completion_keeps|lia].
+    Qed.
+
+    Theorem normal_tilings_complete l :
+      tiling 0 F l -> Forall (fun x => d_type (snd x) = 0) l ->
+      Forall (fun x => exists pr, edge_at (g_edges g) (fst (fst x)) (snd (fst x)) (d_sid (snd x)) pr /\
+                                  p_type pr = 0) l.
+    Proof.
+      intros T Hn. eapply normal_tiling_edges; eauto.
+      - apply (final_start P delims strict inp st I Hq).
+      - constructor.
+    Qed.
+
+    (** *** Transpose *)
+    Lemma run_sorted : maps_sorted (g_edges g).
+    Proof. rewrite run_edges. apply completion_sorted. now destruct bi_parts as (_ & _ & _ & _ & _ & _ & _ & S & _). Qed.
+
+    Theorem transpose_exact s sid :
+      index_at (g_indices g) s sid = transposed (g_edges g) s sid.
+    Proof.
+      assert (E : g_indices g = transpose (g_edges g)) by (rewrite (r_g _ _ _ _ _ R); reflexivity).
+      rewrite E. apply transpose_spec. apply run_sorted.
+    Qed.
+
+    Lemma run_last_type : last_type_of g F = lt.
+    Proof.
+      unfold last_type_of. rewrite run_vertices.
+      destruct bi_parts as (_ & Bv1 & _). rewrite Bv1 by lia.
+      reflexivity.
+    Qed.
+  End WithRun.
+End Main.
+
+(** ** the theorems, for every prism, every flag combination and every input *)
+Lemma forward_farthest_nil P delims strict : forward_farthest P delims strict [] = Some 0.
+Proof. reflexivity. Qed.
+
+Lemma build_inv P delims comp strict inp g :
+  prism_wf P delims -> build_syllable_graph P delims comp strict inp = Some g ->
+  (inp = [] /\ g = empty_graph) \/
+  (inp <> [] /\ exists st vsb esb good, run P delims comp strict inp st vsb esb good g).
+Proof.
+  intros WF H. destruct inp as [|a r] eqn:E.
+  - left. split; [reflexivity|]. cbn in H. congruence.
+  - right. split; [discriminate|]. rewrite <- E in *.
+    destruct (build_run P delims comp strict inp WF ltac:(rewrite E; discriminate))
+      as (st & vsb & esb & good & g' & Hb & R).
+    rewrite H in Hb. inversion Hb; subst g'. now exists st, vsb, esb, good.
+Qed.
+
+Lemma run_far P delims comp strict inp st vsb esb good g far :
+  run P delims comp strict inp st vsb esb good g ->
+  forward_farthest P delims strict inp = Some far -> far = f_far st.
+Proof. intros R H. rewrite (r_far _ _ _ _ _ _ _ _ _ _ R) in H. congruence. Qed.
+
+Lemma edge_at_empty s e sid pr : ~ edge_at [] s e sid pr.
+Proof. intros (ev & sm & H & _). discriminate. Qed.
+
+Lemma tiling_nil_inv P delims strict inp a l : tiling P delims strict inp a a l -> l = [].
+Proof.
+  intro T. inversion T as [|? b ? d l' Tl Tr]; subst; [reflexivity|].
+  exfalso. apply (tile_bounds P delims strict inp) in Tl.
+  assert (b <= a).
+  { clear - Tr. induction Tr as [|x y z d l T _ IH]; [lia|].
+    apply (tile_bounds P delims strict inp) in T. lia. }
+  lia.
+Qed.
+
+Theorem build_total P delims comp strict inp :
+  prism_wf P delims -> exists g, build_syllable_graph P delims comp strict inp = Some g.
+Proof.
+  intro WF. destruct inp as [|a r] eqn:E; [eexists; reflexivity|]. rewrite <- E.
+  destruct (build_run P delims comp strict inp WF ltac:(rewrite E; discriminate))
+    as (st & vsb & esb & good & g & Hb & _). eauto.
+Qed.
+
+Theorem thm_edge_sound P delims comp strict inp g far :
+  prism_wf P delims -> build_syllable_graph P delims comp strict inp = Some g ->
+  forward_farthest P delims strict inp = Some far ->
+  forall s e sid pr, edge_at (g_edges g) s e sid pr ->
+    p_end pr = e /\
+    (normal_edge P delims strict inp s e sid pr \/
+     completion_edge P comp inp far (g_interpreted_length g) s e sid pr).
+Proof.
+  intros WF Hb Hf s e sid pr He.
+  destruct (build_inv _ _ _ _ _ _ WF Hb) as [[-> ->]|(_ & st & vsb & esb & good & R)].
+  - now apply edge_at_empty in He.
+  - rewrite (run_far _ _ _ _ _ _ _ _ _ _ _ R Hf). eapply edge_sound; eauto.
+Qed.
+
+Theorem thm_edge_exact P delims comp strict inp g far :
+  prism_wf P delims -> build_syllable_graph P delims comp strict inp = Some g ->
+  forward_farthest P delims strict inp = Some far ->
+  forall s e, s < far -> has_edge (g_edges g) s e ->
+  forall ds d, lookup (strip_delims delims (sub inp s (e - s))) P = Some ds ->
+    In d ds -> adm strict inp s e d = true -> d_type d <= last_type_of g far ->
+    exists pr, edge_at (g_edges g) s e (d_sid d) pr /\ p_type pr <= d_type d.
+Proof.
+  intros WF Hb Hf s e Ls He ds d L Hd A T.
+  destruct (build_inv _ _ _ _ _ _ WF Hb) as [[-> ->]|(_ & st & vsb & esb & good & R)].
+  - destruct He as (sid & pr & He). now apply edge_at_empty in He.
+  - rewrite (run_far _ _ _ _ _ _ _ _ _ _ _ R Hf) in *. rewrite (run_last_type _ _ _ _ _ _ _ _ _ _ R) in T.
+    eapply edge_exact; eauto.
+Qed.
+
+Theorem thm_vertex_on_path P delims comp strict inp g :
+  prism_wf P delims -> build_syllable_graph P delims comp strict inp = Some g ->
+  forall v t, nm_find v (g_vertices g) = Some t ->
+    gpath g 0 v /\ gpath g v (g_interpreted_length g).
+Proof.
+  intros WF Hb v t Hv.
+  destruct (build_inv _ _ _ _ _ _ WF Hb) as [[-> ->]|(_ & st & vsb & esb & good & R)].
+  - discriminate.
+  - eapply vertex_on_path; eauto.
+Qed.
+
+Theorem thm_interpreted_longest P delims comp strict inp g :
+  prism_wf P delims -> build_syllable_graph P delims comp strict inp = Some g ->
+  exists far, forward_farthest P delims strict inp = Some far /\
+    tilable P delims strict inp far /\
+    (forall p, tilable P delims strict inp p -> p <= far) /\
+    (g_interpreted_length g = far \/
+     (comp = true /\ far < length inp /\ g_interpreted_length g = length inp /\
+      exists k ds, lookup k P = Some ds /\ is_prefix (skipn far inp) k = true)).
+Proof.
+  intros WF Hb.
+  destruct (build_inv _ _ _ _ _ _ WF Hb) as [[-> ->]|(_ & st & vsb & esb & good & R)].
+  - exists 0. split; [reflexivity|]. split; [constructor|]. split; [|now left].
+    intros p Hp. now apply (tilable_le P delims strict []) in Hp.
+  - exists (f_far st). split; [apply (r_far _ _ _ _ _ _ _ _ _ _ R)|]. eapply interpreted_longest; eauto.
+Qed.
+
+Theorem thm_completion_extends P delims comp strict inp g far l ds d :
+  prism_wf P delims -> build_syllable_graph P delims comp strict inp = Some g ->
+  forward_farthest P delims strict inp = Some far ->
+  comp = true -> far < length inp ->
+  In (l, ds) (expand_search P (skipn far inp) kExpandSearchLimit) -> In d ds -> d_type d < kAbbreviation ->
+  g_interpreted_length g = length inp.
+Proof.
+  intros WF Hb Hf Hc Lf Hin Hd T.
+  destruct (build_inv _ _ _ _ _ _ WF Hb) as [[-> ->]|(_ & st & vsb & esb & good & R)].
+  - cbn in Lf. lia.
+  - rewrite (run_far _ _ _ _ _ _ _ _ _ _ _ R Hf) in *. eapply completion_complete; eauto.
+Qed.
+
+Theorem thm_normal_tilings P delims comp strict inp g far l :
+  prism_wf P delims -> build_syllable_graph P delims comp strict inp = Some g ->
+  forward_farthest P delims strict inp = Some far ->
+  tiling P delims strict inp 0 far l -> Forall (fun x => d_type (snd x) = kNormalSpelling) l ->
+  Forall (fun x => exists pr, edge_at (g_edges g) (fst (fst x)) (snd (fst x)) (d_sid (snd x)) pr /\
+                              p_type pr = kNormalSpelling) l.
+Proof.
+  intros WF Hb Hf T Hn.
+  destruct (build_inv _ _ _ _ _ _ WF Hb) as [[-> ->]|(_ & st & vsb & esb & good & R)].
+  - cbn in Hf. inversion Hf; subst far. apply tiling_nil_inv in T. subst l. constructor.
+  - rewrite (run_far _ _ _ _ _ _ _ _ _ _ _ R Hf) in *. eapply normal_tilings_complete; eauto.
+Qed.
+
+Lemma maps_sorted_nil : maps_sorted [].
+Proof. split; [apply nm_sorted_nil|discriminate]. Qed.
+
+Theorem thm_graph_sorted P delims comp strict inp g :
+  prism_wf P delims -> build_syllable_graph P delims comp strict inp = Some g -> maps_sorted (g_edges g).
+Proof.
+  intros WF Hb.
+  destruct (build_inv _ _ _ _ _ _ WF Hb) as [[-> ->]|(_ & st & vsb & esb & good & R)].
+  - apply maps_sorted_nil.
+  - eapply run_sorted; eauto.
+Qed.
+
+Theorem thm_transpose_exact P delims comp strict inp g :
+  prism_wf P delims -> build_syllable_graph P delims comp strict inp = Some g ->
+  forall s sid, index_at (g_indices g) s sid = transposed (g_edges g) s sid.
+Proof.
+  intros WF Hb s sid.
+  destruct (build_inv _ _ _ _ _ _ WF Hb) as [[-> ->]|(_ & st & vsb & esb & good & R)].
+  - reflexivity.
+  - eapply transpose_exact; eauto.
+Qed.
+
+Theorem thm_transpose_members P delims comp strict inp g :
+  prism_wf P delims -> build_syllable_graph P delims comp strict inp = Some g ->
+  forall s sid,
+    match index_at (g_indices g) s sid with
+    | Some l => l <> [] /\ forall pr, In pr l <-> exists e, edge_at (g_edges g) s e sid pr
+    | None => forall e pr, ~ edge_at (g_edges g) s e sid pr
+    end.
+Proof.
+  intros WF Hb s sid. rewrite (thm_transpose_exact _ _ _ _ _ _ WF Hb).
+  pose proof (thm_graph_sorted _ _ _ _ _ _ WF Hb) as S.
+  destruct (transposed (g_edges g) s sid) as [l|] eqn:E.
+  - split; [|intro pr; now apply transposed_In].
+    unfold transposed in E. destruct (nm_find s (g_edges g)); [|discriminate].
+    match type of E with match ?x with _ => _ end = _ => destruct x; [discriminate|] end. congruence.
+  - intros e pr (ev & sm & H1 & H2 & H3). unfold transposed in E. rewrite H1 in E.
+    assert (Hin : In pr (flat_map (fun esm : nat * smap =>
+                    match nm_find sid (snd esm) with Some pr => [pr] | None => [] end) (rev ev))).
+    { apply in_flat_map. exists (e, sm). split; [apply in_rev; rewrite rev_involutive; now apply nm_find_In|].
+      cbn [snd]. rewrite H3. now left. }
+    destruct (flat_map _ (rev ev)); [destruct Hin|discriminate].
+Qed.
+
+(** ** a concrete prism for the non-vacuity examples
+    alphabet a = 1, b = 2, c = 3; delimiter ' = 9;
+    spellings a -> {0}, ab -> {1}, b -> {2, 1 as abbreviation}, ba -> {3}, ca -> {4 as fuzzy}. *)
+Definition ex_prism : prism :=
+  [ ([1], [mkDesc 0 0 0%N]); ([1; 2], [mkDesc 1 0 0%N]);
+    ([2], [mkDesc 2 0 0%N; mkDesc 1 2 7%N]); ([2; 1], [mkDesc 3 0 0%N]);
+    ([3; 1], [mkDesc 4 1 5%N]) ].
+
+Lemma ex_prism_wf_proof : prism_wf ex_prism [9].
+Proof.
+  split; [|split].
+  - cbn. repeat constructor; cbn; intuition discriminate.
+  - intros k ds H. cbn in H. unfold no_trailing_delim.
+    repeat (destruct H as [H|H]; [inversion H; subst; reflexivity|]). destruct H.
+  - intros k ds d H Hd. cbn in H. unfold kAbbreviation.
+    repeat (destruct H as [H|H]; [inversion H; subst; cbn in Hd;
+                                  repeat (destruct Hd as [Hd|Hd]; [subst; cbn; lia|]); destruct Hd|]).
+    destruct H.
+Qed.
+
+Lemma ex_tiling_proof :
+  tiling ex_prism [9] false [1; 2; 9; 1] 0 4
+         [(0, 1, mkDesc 0 0 0%N); (1, 3, mkDesc 2 0 0%N); (3, 4, mkDesc 0 0 0%N)]
+  /\ Forall (fun x => d_type (snd x) = kNormalSpelling)
+            [(0, 1, mkDesc 0 0 0%N); (1, 3, mkDesc 2 0 0%N); (3, 4, mkDesc 0 0 0%N)].
+Proof.
+  split; [|repeat constructor].
+  apply tiling_cons; [|apply tiling_cons; [|apply tiling_cons; [|apply tiling_nil]]].
+  - exists 1, [mkDesc 0 0 0%N]. repeat split; cbn; auto.
+  - exists 1, [mkDesc 2 0 0%N; mkDesc 1 2 7%N]. repeat split; cbn; auto.
+  - exists 1, [mkDesc 0 0 0%N]. repeat split; cbn; auto.
+Qed.
